@@ -206,7 +206,7 @@ def check(R, F, P, cfg):
 
         def reset_and_mark(x):
             return is_call(x, CM + "reset_tracing_counter")
-        heads = loop_heads_applying(S6b, reset_and_mark)
+        heads = applied_to_every_element(S6b, reset_and_mark)
         mk = S6b.calls_to(CM + "mark")
         rst = S6b.calls_to(CM + "reset_tracing_counter")
         ok = bool(heads) and bool(mk) and bool(rst) and all(obj_of(S6b.args_of(a)[0]) == obj_of(S6b.args_of(b)[0]) for a in mk for b in rst)
